@@ -32,7 +32,17 @@ class Shape:
     tynull: bool
     trivial: bool
     defaults: tuple          # of (kind, src)  kind in no|val|fac
-    values: tuple            # python source of raw values (None only where nullable)
+    values: tuple            # python source of raw values (None only where the type admits it)
+    fty_term: str = ""       # OptProj.fty term; derived from ty when empty
+
+    @property
+    def fty(self) -> str:
+        if self.fty_term:
+            return self.fty_term
+        if self.ty == "Any":
+            return "TyAny"
+        return "TyOptional" if self.ty.startswith("Optional[") else "TyPlain"
+
 
 
 SHAPES = [
@@ -64,6 +74,22 @@ SHAPES = [
           ("(PurePosixPath('/a'), 1)", "(PurePosixPath('/b'), 2)")),
     Shape("opt_tuple_enum", "Optional[Tuple[Color, ...]]", True, False, (("val", "(Color.BLUE,)"), ("val", "None")),
           ("None", "(Color.BLUE,)", "(Color.RED, Color.BLUE)")),
+    # Optional hidden behind Annotated / Final (is_field_nullable looks through them)
+    Shape("ann_optint", "Annotated[Optional[int], 'meta']", True, True, (("val", "None"), ("no", None), ("val", "5")),
+          ("None", "5", "3"), "(TyAnnotated TyOptional)"),
+    Shape("fin_optdate", "Final[Optional[date]]", True, False, (("val", "None"), ("val", "date(2020, 1, 1)")),
+          ("None", "date(2020, 1, 1)", "date(1999, 9, 9)"), "(TyFinal TyOptional)"),
+    Shape("fin_ann_optint", "Final[Annotated[Optional[int], 'meta']]", True, True, (("val", "None"), ("val", "5")),
+          ("None", "5", "3"), "(TyFinal (TyAnnotated TyOptional))"),
+    Shape("ann_date", "Annotated[date, 'meta']", False, False, (("no", None), ("val", "date(2020, 1, 1)")),
+          ("date(2020, 1, 1)", "date(1999, 9, 9)"), "(TyAnnotated TyPlain)"),
+    Shape("ann_any", "Annotated[Any, 'meta']", True, True, (("no", None), ("val", "None")), ("None", "'q'", "1"),
+          "(TyAnnotated TyAny)"),
+    # a union of three members one of which is None: nullable like Optional (is_union and NoneType in get_args)
+    Shape("wide_union", "Union[int, str, None]", True, True, (("no", None), ("val", "5"), ("val", "None")),
+          ("None", "5", "'s'"), "TyUnionNone"),
+    Shape("wide_union_date", "Union[int, date, None]", True, False, (("no", None), ("val", "5")),
+          ("None", "5", "date(2020, 1, 1)"), "TyUnionNone"),
     Shape("optfloat", "Optional[float]", True, True, (("val", "float('nan')"), ("val", "None")),
           ("None", "float('nan')", "1.0")),
 ]
@@ -84,8 +110,12 @@ class FieldSpec:
         return SHAPE[self.shape]
 
     @property
-    def nullable(self) -> bool:
+    def nullable(self) -> bool:      # as CodeBuilder.is_field_nullable sees it
         return self.sh.tynull or (self.dkind == "val" and self.dsrc == "None")
+
+    @property
+    def admits_none(self) -> bool:   # a conforming instance may hold None
+        return self.nullable
 
 
 @dataclass(frozen=True)
@@ -100,6 +130,9 @@ class Opts:
     fdl: bool = False
     fcx: bool = False
     lazy: bool = False
+    cfg_style: int = 0             # 0: class Config(BaseConfig); 1: plain class Config; >= 2: plain Config deriving from a
+                                   # plain parent class that holds the lines selected by the bits (and contradicting values
+                                   # for overridden options)
     kon: bool | None = None
     kba: bool | None = None
     kcx: bool = False
@@ -124,7 +157,7 @@ HEADER = """import enum
 from dataclasses import dataclass, field
 from datetime import date
 from pathlib import PurePosixPath
-from typing import Any, List, Optional, Tuple, Union
+from typing import Annotated, Any, Final, List, Optional, Tuple, Union
 from mashumaro import DataClassDictMixin
 from mashumaro.config import (BaseConfig, TO_DICT_ADD_OMIT_NONE_FLAG, TO_DICT_ADD_BY_ALIAS_FLAG,
                               ADD_DIALECT_SUPPORT, ADD_SERIALIZATION_CONTEXT)
@@ -195,8 +228,21 @@ def class_source(name: str, fields: list, o: Opts | None, extra_lines: list[str]
     src += ("\n".join(lines) if lines else "    pass") + "\n"
     if o is not None:
         cfg = config_lines(o, cfgd_name if o.cfgd is not None else None)
-        if cfg:
+        if cfg and o.cfg_style == 0:
             src += "    class Config(BaseConfig):\n" + "\n".join(cfg) + "\n"
+        elif cfg and o.cfg_style == 1:
+            src += "    class Config:\n" + "\n".join(cfg) + "\n"
+        elif cfg:
+            # inherited plain Config: what the Config class itself defines wins over its parent, the parent over BaseConfig
+            parent, child = [], []
+            for i, ln in enumerate(cfg):
+                (parent if (o.cfg_style >> (i + 1)) & 1 else child).append(ln)
+            for i, ln in enumerate(child):
+                key, _, val = ln.strip().partition(" = ")
+                if key in OPTN and (o.cfg_style >> (i + 8)) & 1:
+                    parent.append(f"        {key} = {not eval(val)}")        # overridden by the child
+            psrc = f"class {name}Opts:\n" + ("\n".join(x[4:] for x in parent) if parent else "    pass") + "\n"
+            src = psrc + src + f"    class Config({name}Opts):\n" + ("\n".join(child) if child else "        pass") + "\n"
     return src
 
 
@@ -380,18 +426,23 @@ def gen_ns(rng, p_none=0.35):
     return (rng.choice(TRI), rng.choice(TRI), rng.choice(TRI))
 
 
+def gen_cfg_style(rng) -> int:
+    r = rng.random()
+    return 0 if r < 0.6 else (1 if r < 0.72 else rng.randrange(2, 1 << 12))
+
+
 def gen_opts(rng, entry="to_dict") -> Opts:
     if entry == "codec":
         return Opts(call=None, cfgd=gen_ns(rng), cfg=gen_ns(rng, 0.0), dd=gen_ns(rng, 0.15), sort=rng.random() < 0.4,
                     fon=rng.random() < 0.3, fba=rng.random() < 0.3, fdl=rng.random() < 0.3, fcx=rng.random() < 0.2,
-                    entry="codec")
+                    entry="codec", cfg_style=gen_cfg_style(rng))
     fon, fba, fdl, fcx = (rng.random() < 0.5 for _ in range(4))
     call = gen_ns(rng, 0.3) if fdl else None
     return Opts(call=call, cfgd=gen_ns(rng), cfg=gen_ns(rng, 0.0), dd=None, sort=rng.random() < 0.4,
                 fon=fon, fba=fba, fdl=fdl, fcx=fcx, lazy=rng.random() < 0.25,
                 kon=rng.choice([None, True, False]) if fon else None,
                 kba=rng.choice([None, True, False]) if fba else None,
-                kcx=fcx and rng.random() < 0.5)
+                kcx=fcx and rng.random() < 0.5, cfg_style=gen_cfg_style(rng))
 
 
 def kw_variants(o: Opts, rng, k: int) -> list[Opts]:
@@ -408,12 +459,12 @@ def kw_variants(o: Opts, rng, k: int) -> list[Opts]:
 def gen_values(rng, fields: list[FieldSpec]) -> list[str]:
     vals = []
     for f in fields:
-        cands = [v for v in f.sh.values if v != "None" or f.nullable]
+        cands = [v for v in f.sh.values if v != "None" or f.admits_none]
         r = rng.random()
         if f.dkind != "no" and r < 0.3:
             # the default itself (for a factory: a fresh call)
             vals.append(f.dsrc if f.dkind == "val" else f"({f.dsrc})()")
-        elif f.nullable and r < 0.5:
+        elif f.admits_none and r < 0.5:
             vals.append("None")
         else:
             vals.append(rng.choice(cands))
@@ -463,14 +514,17 @@ Definition N a b c := {| n_on := a; n_od := b; n_ba := c |}.
 Definition O call cfgd cfg dd srt fon fba fdl fcx kon kba :=
   {| o_call := call; o_cfgd := cfgd; o_cfg := cfg; o_dd := dd; o_sort := srt; o_fon := fon; o_fba := fba;
      o_fdl := fdl; o_fcx := fcx; o_kon := kon; o_kba := kba |}.
-Definition P n a tn tr d om := {| p_name := n; p_alias := a; p_tynull := tn; p_trivial := tr; p_default := d; p_omit := om |}.
-Definition case_ok (c: opts * list fplan * list fval * option (list (string * pv)) * bool) : bool :=
-  match c with (o, fs, vs, expected, py_d14) =>
+Definition P n a ty tr d om := {| p_name := n; p_alias := a; p_ty := ty; p_trivial := tr; p_default := d; p_omit := om |}.
+Fixpoint bools_eqb (a b: list bool) : bool :=
+  match a, b with [], [] => true | x :: r, y :: t => Bool.eqb x y && bools_eqb r t | _, _ => false end.
+Definition case_ok (c: opts * list fplan * list fval * option (list (string * pv)) * (bool * list bool)) : bool :=
+  match c with (o, fs, vs, expected, (py_d14, py_nullable)) =>
     match to_dict_model o fs vs, expected with
     | Some l, Some e => pairs_eqb (dict_of l) e
     | None, None => true          (* TypeError *)
     | _, _ => false end
-    && Bool.eqb (negb (flag_defaults_ok o)) py_d14 && kw_ok o && vals_ok fs vs end.
+    && Bool.eqb (negb (flag_defaults_ok o)) py_d14 && kw_ok o && vals_ok fs vs
+    && match py_nullable with [] => true | _ => bools_eqb (map nullable fs) py_nullable end end.
 """
 
 
@@ -496,10 +550,10 @@ def coq_field(f: FieldSpec, defaults: dict, enc: PvEnc) -> str:
         d = f"(DVal {enc(defaults[f.name])})"
     else:
         d = f"(DFac {enc(defaults[f.name])})"
-    return f"(P {coq_str(f.name)} {al} {coq_bool(f.sh.tynull)} {coq_bool(f.sh.trivial)} {d} {coq_bool(f.omit)})"
+    return f"(P {coq_str(f.name)} {al} {f.sh.fty} {coq_bool(f.sh.trivial)} {d} {coq_bool(f.omit)})"
 
 
-def coq_case(o: Opts, fields, defaults, inst, plain: dict, observed) -> str:
+def coq_case(o: Opts, fields, defaults, inst, plain: dict, observed, real_nullable=None) -> str:
     """observed: the mapping, or None when the call raised TypeError"""
     enc = PvEnc()
     fs = coq_list(coq_field(f, defaults, enc) for f in fields)
@@ -508,7 +562,20 @@ def coq_case(o: Opts, fields, defaults, inst, plain: dict, observed) -> str:
         exp = "None"
     else:
         exp = "(Some " + coq_list(f"({coq_str(k)}, {enc(v)})" for k, v in observed.items()) + ")"
-    return f"({coq_opts(o)}, {fs}, {vs}, {exp}, {coq_bool(d14_signature(o))})"
+    return (f"({coq_opts(o)}, {fs}, {vs}, {exp}, ({coq_bool(d14_signature(o))}, "
+            f"{coq_list(coq_bool(b) for b in (real_nullable or []))}))")
+
+
+def real_nullables(ns: dict, cls: str, fields) -> list | None:
+    """CodeBuilder.is_field_nullable of the REAL class for every field (tie of the harness's shape table and of
+    the model's `nullable` to the implementation); None when the method does not exist"""
+    try:
+        from mashumaro.core.meta.code.builder import CodeBuilder
+        b = CodeBuilder(ns[cls])
+        ft = b.get_field_types(include_extras=True)
+        return [bool(b.is_field_nullable(f.name, ft[f.name])) for f in fields]
+    except Exception:
+        return None
 
 
 # ---------------------------------------------------------------------------
@@ -565,11 +632,11 @@ def eval_flat(ns: dict, src: str, fields, o: Opts, vals, want_coq=True) -> Eval:
         ev.kind = "raised-" + type(ex).__name__
         if isinstance(ex, TypeError):
             if want_coq:
-                ev.coq = coq_case(o, fields, defaults, inst, plain, None)
+                ev.coq = coq_case(o, fields, defaults, inst, plain, None, real_nullables(ns, "X", fields))
         return ev
     ev.observed = observed
     if want_coq and isinstance(observed, dict):
-        ev.coq = coq_case(o, fields, defaults, inst, plain, observed)
+        ev.coq = coq_case(o, fields, defaults, inst, plain, observed, real_nullables(ns, "X", fields))
     if typed(observed) != typed(expected):
         ev.ok = False
         ev.kind = "projection-mismatch"
@@ -585,7 +652,7 @@ def flat_signature(ev: Eval) -> dict:
 
 def flat_key(fields, o: Opts, vals):
     return (tuple((f.shape, f.dkind, f.dsrc, f.alias is not None, f.omit) for f in fields),
-            (o.call, o.cfgd, o.cfg, o.dd, o.sort, o.fon, o.fba, o.fdl, o.fcx, o.lazy, o.kon, o.kba, o.entry), tuple(vals))
+            (o.call, o.cfgd, o.cfg, o.dd, o.sort, o.fon, o.fba, o.fdl, o.fcx, o.lazy, o.kon, o.kba, o.entry, o.cfg_style), tuple(vals))
 
 
 # ---------------------------------------------------------------------------
@@ -650,7 +717,7 @@ LEAF_NESTED = [("optint", "val", "None"), ("int", "val", "1"), ("date", "no", No
                ("any", "val", "None"), ("int_none", "val", "None")]
 
 
-def gen_table(rng) -> list[NCls]:
+def gen_table(rng, unions: bool = True) -> list[NCls]:
     """class 0 is a mixin root; the others are mixin subclasses, plain dataclasses with a Config, or plain
     dataclasses without any Config; class i only refers to classes j > i"""
     n = rng.randint(2, 5)
@@ -664,7 +731,7 @@ def gen_table(rng) -> list[NCls]:
         else:
             fon, fba, fdl, fcx = (rng.random() < 0.5 for _ in range(4))
             o = Opts(cfgd=gen_ns(rng, 0.45), cfg=gen_ns(rng, 0.3) or ("U", "U", "U"), sort=rng.random() < 0.3,
-                     fon=fon, fba=fba, fdl=fdl, fcx=fcx, lazy=mixin and rng.random() < 0.2)
+                     fon=fon, fba=fba, fdl=fdl, fcx=fcx, lazy=mixin and rng.random() < 0.2, cfg_style=gen_cfg_style(rng))
         names = rng.sample(NAMES, rng.randint(1, 4))
         aliases = rng.sample(ALIASES, len(ALIASES))
         fields = []
@@ -673,7 +740,7 @@ def gen_table(rng) -> list[NCls]:
             al = aliases[i] if rng.random() < 0.4 else None
             if later and (rng.random() < 0.55 or (cid == 0 and i == 0)):
                 k = rng.random()
-                if len(later) >= 2 and k < 0.3:
+                if unions and len(later) >= 2 and k < 0.3:
                     mem = tuple(rng.sample(later, rng.randint(2, min(3, len(later)))))
                     fields.append(DcField(nm, mem, False, al, False))
                 elif k < 0.5:
@@ -786,7 +853,7 @@ def both_flags(a, b):
     return tuple(x and y for x, y in zip(a, b))
 
 
-def walk(table, ns, t, inst, plain, members, outer, avail, mode: str, hits: dict):
+def walk(table, ns, t, inst, plain, members, outer, avail, mode: str, hits: dict, codec=None):
     """hereditary reference (mode 'spec') / prediction under the two known findings (mode 'kf'):
     the mapping expected for the instance `inst` of tree `t`; avail = (omit_none, by_alias, dialect ns)
     values of the caller's keyword parameters; hits records where D14 / D8b corners are met."""
@@ -806,6 +873,9 @@ def walk(table, ns, t, inst, plain, members, outer, avail, mode: str, hits: dict
             if mode == "kf":
                 fl = fl_impl
     o = replace(c.o, kon=avail[0] if fl[0] else None, kba=avail[1] if fl[1] else None, call=avail[2] if fl[2] else None)
+    if codec is not None:
+        # codec path: static call without keywords; every class sits on the codec's default dialect
+        o = replace(c.o, kon=None, kba=None, call=None, dd=codec[0])
     if d14_signature(o):
         hits["d14"] = True
     e = effective_d14(o) if mode == "kf" else effective(o)
@@ -825,10 +895,10 @@ def walk(table, ns, t, inst, plain, members, outer, avail, mode: str, hits: dict
     sub = {}
     for f, x in zip(fields, ch):
         if isinstance(x, list):
-            sub[f.name] = [walk(table, ns, y, iy, py, f.members, cls_flags(c), avail2, mode, hits)
+            sub[f.name] = [walk(table, ns, y, iy, py, f.members, cls_flags(c), avail2, mode, hits, codec)
                            for y, iy, py in zip(x, getattr(inst, f.name), plain[f.name])]
         elif isinstance(f, DcField) and not isinstance(x, str):
-            sub[f.name] = walk(table, ns, x, getattr(inst, f.name), plain[f.name], f.members, cls_flags(c), avail2, mode, hits)
+            sub[f.name] = walk(table, ns, x, getattr(inst, f.name), plain[f.name], f.members, cls_flags(c), avail2, mode, hits, codec)
     return project(e, fields, defaults, inst, plain, sub)
 
 
@@ -844,14 +914,21 @@ Definition ncase_ok (c: list cls * (nat * node) * kwv * option pv * bool) : bool
     | Some a, Some b => pv_eqb a b
     | None, None => true
     | _, _ => false end
-    && Bool.eqb (ok_h ct n [root] root_flags k None) py_in_domain end.
+    && Bool.eqb (ok_h ct true n [root] root_flags k None) py_in_domain end.
+Definition ccase_ok (c: list cls * (nat * node) * option ns * option pv * bool) : bool :=
+  match c with (ct, (root, n), dd, expected, py_in_domain) =>
+    match to_dict_codec ct false n root dd, expected with
+    | Some a, Some b => pv_eqb a b
+    | None, None => true
+    | _, _ => false end
+    && Bool.eqb (ok_h ct false n [root] root_flags no_kw dd) py_in_domain end.
 """
 
 
 def coq_dcfield(f: DcField) -> str:
     al = "None" if f.alias is None else f"(Some {coq_str(f.alias)})"
     d = "(DFac (POpq 1))" if f.many else ("(DVal PNone)" if f.optional else "DNo")   # [] is POpq (1 + 0)
-    return f"(P {coq_str(f.name)} {al} {coq_bool(f.optional)} false {d} {coq_bool(f.omit)})"
+    return f"(P {coq_str(f.name)} {al} {'TyOptional' if f.optional else 'TyPlain'} false {d} {coq_bool(f.omit)})"
 
 
 def coq_table(table, ns, enc) -> str:
@@ -966,6 +1043,64 @@ def run_nested(ctx: vlib.Ctx, ncases: list[str], ninfo: list):
                 kba = rng.choice([None, True, False]) if root.o.fba else None
                 rcall = call if root.o.fdl else None
                 eval_nested(ctx, table, order, src, ns, rid, gen_tree(rng, table, rid), kon, kba, rcall, ncases, ninfo)
+        unload(ns)
+
+
+def run_codec_nested(ctx: vlib.Ctx, ccases: list[str], cinfo: list):
+    """codec path over nested classes: BasicEncoder / JSONEncoder(<any class of the table>, default_dialect=D).encode(x);
+    every class (mixin or plain) is compiled by the codec's own builders with D as lowest option level and is called
+    statically without keywords; the twin is encoded by BasicEncoder without default dialect"""
+    import json as _json
+    from mashumaro.codecs.basic import BasicEncoder
+    from mashumaro.codecs.json import JSONEncoder
+    rng = ctx.rng
+    for _ in range(ctx.budget(90, 900)):
+        table = gen_table(rng, unions=False)
+        order = definition_order(rng, table)
+        dd = gen_ns(rng, 0.15)
+        src = table_source(table, None, order) + (dialect_source("DefD", dd) if dd is not None else "")
+        ns = load(src)
+        for rid in rng.sample(range(len(table)), min(2, len(table))):
+            t = gen_tree(rng, table, rid)
+            use_json = rng.random() < 0.3
+            rep = {"kind_of_case": "codec-nested", "source": src, "cls": f"C{rid}", "twin": f"P{rid}",
+                   "instance": tree_src(table, t, "C"), "twin_instance": tree_src(table, t, "P"),
+                   "entry": "json-codec" if use_json else "codec", "kwargs": "", "default_dialect": "DefD" if dd is not None else None}
+            inst = eval(rep["instance"], ns)
+            twin = eval(rep["twin_instance"], ns)
+            try:
+                plain = BasicEncoder(ns[f"P{rid}"]).encode(twin)
+            except Exception as ex:
+                rep["expected"] = "a mapping"
+                ctx.fail(f"codec: the option-free twin raised {type(ex).__name__}: {ex}"[:300], rep,
+                         {"kind": "plain-raised-" + type(ex).__name__, "entry": "codec-nested"})
+                continue
+            hits: dict = {}
+            expected = walk(table, ns, t, inst, plain, (rid,), ALL_FLAGS, (None, None, None), "spec", hits, codec=(dd,))
+            rep["expected"] = repr(expected)
+            rep["plain"] = repr(plain)
+            ctx.count(("codec-nested", repr(table), rid, repr(t), dd, use_json))
+            ctx.hist("entry", "codec-nested")
+            ctx.hist("codec_root", "mixin" if table[rid].mixin else "plain")
+            try:
+                ddc = ns["DefD"] if dd is not None else None
+                if use_json:
+                    observed = _json.loads(JSONEncoder(ns[f"C{rid}"], default_dialect=ddc).encode(inst))
+                else:
+                    observed = BasicEncoder(ns[f"C{rid}"], default_dialect=ddc).encode(inst)
+            except Exception as ex:
+                rep["observed"] = f"{type(ex).__name__}: {ex}"
+                ctx.fail(f"codec {rep['instance']} (default_dialect={dd}) raised {type(ex).__name__}: {ex}"[:400], rep,
+                         {"kind": "raised-" + type(ex).__name__, "entry": "codec-nested"})
+                continue
+            rep["observed"] = repr(observed)
+            enc = PvEnc()
+            ccases.append(f"({coq_table(table, ns, enc)}, ({rid}%nat, {coq_node(table, t, inst, plain, enc)}), "
+                          f"{coq_ns(dd)}, (Some {coq_tree_value(observed, enc)}), {coq_bool(not hits)})")
+            cinfo.append(rep)
+            if typed(observed) != typed(expected):
+                ctx.fail(f"codec {rep['instance']} with default_dialect={dd} encodes to {observed!r}, hereditary projection of the "
+                         f"plain output is {expected!r}"[:500], rep, {"kind": "codec-nested-projection-mismatch", "entry": "codec-nested"})
         unload(ns)
 
 
@@ -1148,7 +1283,8 @@ def run(ctx: vlib.Ctx):
     ctx.coverage["rule"] = (
         "flat: random dataclasses of 1-6 fields over 17 field shapes (nullable by type / by default None, trivial / "
         "non-trivial packer, default value / factory / none, alias incl. colliding keys, serialize=omit) x option vector "
-        "(call dialect, Config.dialect, Config in {unset,F,T}^3 each, default dialect via BasicEncoder, sort_keys, lazy, "
+        "(call dialect, Config.dialect, Config in {unset,F,T}^3 each -- Config written as BaseConfig subclass, plain class, or "
+        "plain class inheriting part of its options from a plain parent --, default dialect via BasicEncoder, sort_keys, lazy, "
         "4 code generation flags, keyword arguments) x values (None / the default / ==-equal of another type / other); "
         "lattice: fixed 6-field family x every (call, Config.dialect, Config) namespace triple (thorough: all 21168, "
         "quick: slice); nested: class tables of 2-5 classes (mixin subclasses, plain dataclasses with a Config, plain "
@@ -1173,6 +1309,10 @@ def run(ctx: vlib.Ctx):
         "decided by the harness ((type, repr) classes of date/list/tuple values)",
         "tools/kernels/k9_nested_builder.py: builder attributes abstracted as namespaces, statements before the nested "
         "builder call translated with it",
+        "tools/kernels/k17_nullable.py: field types encoded as kernel values (fty grammar), helper predicates "
+        "is_annotated/is_final/is_optional/is_type_var_any as tag tests (is_optional's source text is checked), the "
+        "`while True` unwrapping loop as bounded iteration with fuel 1 + nesting depth; k18_pack_bookkeeping.py: "
+        "_get_field_packer abstracted as its three results (could_be_none = is_field_nullable is checked textually)",
         "tools/kernels/k8_packflags.py: is_code_generation_option_enabled abstracted as a namespace lookup (source "
         "text of the method is checked), pass_encoder=False slice of get_pack_method_flags; K3 abstraction of "
         "self.dialect / Config.dialect / Config / default_dialect as four namespaces (tools/gen_kernels.py)",
@@ -1195,16 +1335,18 @@ def run(ctx: vlib.Ctx):
     ctx.theorems("props/C08_kernel_K3.vo", ["K3_order", "K3_look"], kernels=["K3"])
     ctx.theorems("props/C08_kernel_K8.vo", ["K8_forward", "K8_use_kwargs"], kernels=["K8"])
     ctx.theorems("props/C08_kernel_K14.vo", ["K14_passdown", "K14_pass_dd"], kernels=["K14"])
+    ctx.theorems("props/C08_kernel_K17.vo", ["K17_nullable"], kernels=["K17"])
+    ctx.theorems("props/C08_kernel_K18.vo", ["K18_bookkeeping", "K18_use_kwargs"], kernels=["K18", "K8"])
     ctx.theorems("props/C08_project.vo", thm)
     ctx.theorems("props/C08_nested.vo", ["C08_nested_partial", "C08_union_flags_refuted", "C08_forwarded_exactly", "C08_no_leak",
-                                            "C08_option_free_is_plain"])
+                                            "C08_option_free_is_plain", "C08_codec_partial", "C08_codec_obj", "C08_codec_no_leak"])
 
     if not ctx.quick():
         # second opinion: the independent checker on the compiled property files
         with vlib.Lock("build"):
             rc, out, _ = vlib.run(["timeout", "600", "coqchk", "-silent", "-o", "-Q", "theories", "Verif", "-Q", "gen", "VerifGen",
                                    "-Q", "props", "VerifProps", "VerifProps.C08_project", "VerifProps.C08_nested",
-                                   "VerifProps.C08_kernel_K3", "VerifProps.C08_kernel_K8", "VerifProps.C08_kernel_K14"], cwd=vlib.COQ, timeout=640)
+                                   "VerifProps.C08_kernel_K3", "VerifProps.C08_kernel_K8", "VerifProps.C08_kernel_K14", "VerifProps.C08_kernel_K17", "VerifProps.C08_kernel_K18"], cwd=vlib.COQ, timeout=640)
         ok = rc == 0 and "Axioms: <none>" in out
         ctx.obligation("coqchk -o (C08_project, C08_nested, C08_kernel_K3, C08_kernel_K8): no axioms", ok, out[-600:])
         if not ok:
@@ -1223,7 +1365,7 @@ def run(ctx: vlib.Ctx):
 
     name = "to_dict-model-vs-generated-code"
     bad, log = vlib.coq_bad_idx("c08_flat", "OptProj", "", COQ_DEFS, cases, "case_ok",
-                                "opts * list fplan * list fval * option (list (string * pv)) * bool", shard=400,
+                                "opts * list fplan * list fval * option (list (string * pv)) * (bool * list bool)", shard=400,
                                 needs=["theories/OptProj.vo"])
     if bad is None:
         ctx.correspondence(name, len(cases), -1, log)
@@ -1242,6 +1384,25 @@ def run(ctx: vlib.Ctx):
             ev = info[bad[0]]
             detail = f"{len(bad)} cases, first: options {ev.o!r} instance {inst_src('X', ev.fields, ev.vals)} observed {ev.observed!r}\n{ev.src}"
         ctx.correspondence(name, len(cases), len(bad), detail)
+        if bad:
+            ctx.not_shown("correspondence " + name, detail)
+
+    ccases: list[str] = []
+    cinfo: list = []
+    run_codec_nested(ctx, ccases, cinfo)
+    name = "codec-nested-model-vs-generated-code"
+    bad, log = vlib.coq_bad_idx("c08_codec", "OptProj OptNested", "", NESTED_DEFS, ccases, "ccase_ok",
+                                "list cls * (nat * node) * option ns * option pv * bool", shard=300,
+                                needs=["theories/OptNested.vo"])
+    if bad is None:
+        ctx.correspondence(name, len(ccases), -1, log)
+        ctx.not_shown("correspondence " + name, log)
+    else:
+        detail = ""
+        if bad:
+            r = cinfo[bad[0]]
+            detail = f"{len(bad)} cases, first: {r['entry']} {r['instance']} default_dialect {r['default_dialect']} observed {r['observed']}\n{r['source']}"
+        ctx.correspondence(name, len(ccases), len(bad), detail)
         if bad:
             ctx.not_shown("correspondence " + name, detail)
 
@@ -1284,11 +1445,20 @@ def replay(rep: dict) -> int:
     inst = eval(rep["instance"], ns)
     twin = eval(rep["twin_instance"], ns)
     try:
-        plain = twin.to_dict()
+        if rep.get("kind_of_case") == "codec-nested":
+            from mashumaro.codecs.basic import BasicEncoder
+            plain = BasicEncoder(ns[rep["twin"]]).encode(twin)
+        else:
+            plain = twin.to_dict()
     except Exception as ex:
         plain = f"{type(ex).__name__}: {ex}"
     try:
-        if rep.get("entry") == "codec":
+        if rep.get("entry") == "json-codec":
+            import json as _json
+            from mashumaro.codecs.json import JSONEncoder
+            dd = ns[rep["default_dialect"]] if rep.get("default_dialect") else None
+            got = _json.loads(JSONEncoder(ns[rep["cls"]], default_dialect=dd).encode(inst))
+        elif rep.get("entry") == "codec":
             from mashumaro.codecs.basic import BasicEncoder
             dd = ns[rep["default_dialect"]] if rep.get("default_dialect") else None
             got = BasicEncoder(ns[rep["cls"]], default_dialect=dd).encode(inst)
